@@ -127,7 +127,7 @@ func (s *c19BufSim) settle() {
 
 func (s *c19BufSim) accept(c *c19SimChunk) {
 	spill := len(s.window) >= s.plan.WCap/2
-	s.emit(2, int64(c.idx), b2i(spill), 1)
+	s.emit(2, int64(c.idx), c19b2i(spill), 1)
 	s.pending++
 	if spill {
 		s.inP++
@@ -391,7 +391,7 @@ func c19RunBufPlan(pl *c19BufPlan, desc [6]int64) ([]int64, string, []Fail) {
 	if ok && int64(files) != sim.nfiles {
 		fail("c19:buffer:files!=script", "scripted buffer: %d chunk files after Destroy, the script gives %d", files, sim.nfiles)
 	}
-	z := []int64{desc[0], desc[1], desc[2], desc[3], desc[4], desc[5], b2i(!pl.NoDir), pl.Quota, int64(pl.QCap), int64(pl.WCap), 0, 0, nfiles0, int64(len(chunks))}
+	z := []int64{desc[0], desc[1], desc[2], desc[3], desc[4], desc[5], c19b2i(!pl.NoDir), pl.Quota, int64(pl.QCap), int64(pl.WCap), 0, 0, nfiles0, int64(len(chunks))}
 	for _, c := range chunks {
 		z = append(z, int64(c.size))
 	}
